@@ -3145,6 +3145,9 @@ fn exercise_all_configs(cx: &mut Ctx, data: &[u8]) {
         let Some(Some(glyph)) = cx.api("outline_glyphs.get", || og.get(skrifa::GlyphId::new(gid))) else { continue };
         let mut too_many = 0u32;
         let mut ok = 0u32;
+        let mut hint_failed_nonped = 0u32;
+        let mut unhinted_scaled_ok = false;
+        let mut nonped_interp_err = 0u32;
         let mut record = |r: Option<Result<(), DrawError>>| match r {
             Some(Ok(())) => ok += 1,
             Some(Err(DrawError::TooManyPoints(_))) => too_many += 1,
@@ -3155,14 +3158,29 @@ fn exercise_all_configs(cx: &mut Ctx, data: &[u8]) {
         for style in [PathStyle::FreeType, PathStyle::HarfBuzz] {
             for size in [Size::unscaled(), Size::new(16.0)] {
                 cx.group(&format!("draw.unhinted.{:?}", style));
-                record(cx.api("draw.unhinted", || glyph.draw(DrawSettings::unhinted(size, LocationRef::default()).with_path_style(style), &mut NullPen).map(|_| ())));
+                let r0 = cx.api("draw.unhinted", || glyph.draw(DrawSettings::unhinted(size, LocationRef::default()).with_path_style(style), &mut NullPen).map(|_| ()));
+                if matches!(style, PathStyle::FreeType) && size.ppem().is_some() && matches!(r0, Some(Ok(()))) {
+                    unhinted_scaled_ok = true;
+                }
+                record(r0);
                 record(cx.api("draw.unhinted", || glyph.draw(DrawSettings::unhinted(size, LocationRef::default()).with_path_style(style).with_memory(Some(&mut buf[1..])), &mut NullPen).map(|_| ())));
             }
         }
         for (name, inst) in &instances {
             cx.group(&format!("draw.hinted.{}", name));
             for ped in [false, true] {
-                record(cx.api("draw.hinted", || glyph.draw(DrawSettings::hinted(inst, ped), &mut NullPen).map(|_| ())));
+                let r = cx.api("draw.hinted", || glyph.draw(DrawSettings::hinted(inst, ped), &mut NullPen).map(|_| ()));
+                if !ped {
+                    if let Some(Err(e)) = &r {
+                        if matches!(e, DrawError::HintingFailed(_)) {
+                            hint_failed_nonped += 1;
+                        }
+                        if name.starts_with("interpreter") {
+                            nonped_interp_err += 1;
+                        }
+                    }
+                }
+                record(r);
             }
             record(cx.api("draw.hinted", || glyph.draw(DrawSettings::hinted(inst, false).with_memory(Some(&mut buf[..])), &mut NullPen).map(|_| ())));
         }
@@ -3170,6 +3188,235 @@ fn exercise_all_configs(cx: &mut Ctx, data: &[u8]) {
         if too_many > 0 && ok > 0 {
             cx.fail("draw", "limit:TooManyPoints-not-enforced-by-every-configuration".into(), &format!("gid {}: {} configurations refuse with TooManyPoints, {} draw it", gid, too_many, ok));
         }
+        // a failing glyph program is ignored unless the caller asked for pedantic hinting
+        if hint_failed_nonped > 0 {
+            cx.fail("draw.hinted", "hinting:error-surfaced-in-non-pedantic-mode".into(), &format!("gid {}: {} non-pedantic hinted draws returned HintingFailed", gid, hint_failed_nonped));
+        }
+        if unhinted_scaled_ok && nonped_interp_err > 0 && too_many == 0 {
+            cx.fail("draw.hinted", "hinting:non-pedantic-draw-fails-where-unhinted-succeeds".into(), &format!("gid {}: unhinted scaled draw Ok, {} non-pedantic interpreter draws Err", gid, nonped_interp_err));
+        }
+        cx.count(if nonped_interp_err > 0 { "cfg.nonped_interp_err" } else { "cfg.nonped_interp_ok" });
+    }
+}
+
+// ---- instructed composites: nesting depth x position x glyph programs (valid / empty / failing in k ways) ----
+fn glyph_programs() -> Vec<(&'static str, Vec<u8>)> {
+    vec![
+        ("valid", vec![0xB0, 0x00, 0x21]),                    // PUSHB 0; POP
+        ("empty", vec![]),
+        ("lone-endf", vec![0x2D]),                            // ENDF outside a call: CallStackUnderflow
+        ("bad-point", vec![0xB8, 0x75, 0x30, 0x2E]),          // PUSHW 30000; MDAP[0]: InvalidPointIndex
+        ("invalid-opcode", vec![0x28]),                       // unassigned opcode
+        ("undefined-call", vec![0xB0, 0x09, 0x2B]),           // CALL 9
+        ("budget-loop", vec![0xB8, 0xFF, 0xFD, 0x1C]),        // PUSHW -3; JMPR
+        ("truncated-push", vec![0xB9, 0x00]),                 // decode error
+        ("div-zero", vec![0xB1, 0x40, 0x00, 0x62]),           // PUSHB 64 0; DIV
+    ]
+}
+fn instructed_composite_fonts() -> Vec<(String, Vec<u8>)> {
+    let progs = glyph_programs();
+    let mut v = vec![];
+    for (iname, inner) in &progs {
+        for (oname, outer) in [&progs[0], &progs[2], &progs[1]] {
+            // one font per (inner program, outer program): glyph chains for depth 1..4 x position
+            let mut glyphs = vec![GK::Simple]; // gid 0: three points
+            let mut roots = vec![];
+            for nonfirst in [false, true] {
+                for depth in 1..=4usize {
+                    let mut prev: u16 = 0;
+                    for level in 1..=depth {
+                        let prog = if level == 1 { inner.clone() } else { outer.clone() };
+                        let comps = if nonfirst { vec![0, prev] } else { vec![prev, 0] };
+                        glyphs.push(GK::CompositeI(comps, prog));
+                        prev = glyphs.len() as u16 - 1;
+                    }
+                    roots.push(prev);
+                }
+            }
+            // a plain (uninstructed) wrapper around every chain, in non-first position
+            for r in roots {
+                glyphs.push(GK::Composite(vec![0, r]));
+            }
+            let fdef = assemble(&[AI::Fdef(0), AI::Endf]);
+            v.push((format!("synthetic-instructed-composite-{}-{}", iname, oname), glyf_font(&glyphs, &[0xB0, 0x00, 0x21], &fdef, &[0x18], 2, 16, 2)));
+        }
+    }
+    v
+}
+
+// ---- COLR v1: deep ACYCLIC chains through every child slot of every paint format that has children ----
+/// (format, slot): the paint formats with children; slot 0 = the only / source child, 1 = backdrop
+const COLR_CHAIN_SLOTS: &[(u8, u8)] = &[
+    (1, 0), (10, 0), (11, 0), (12, 0), (13, 0), (14, 0), (15, 0), (16, 0), (17, 0), (18, 0), (19, 0), (20, 0), (21, 0), (22, 0), (23, 0),
+    (24, 0), (25, 0), (26, 0), (27, 0), (28, 0), (29, 0), (30, 0), (31, 0), (32, 0), (32, 1),
+];
+fn colr_chain_font(format: u8, slot: u8, n: usize) -> Vec<u8> {
+    let solid = [2u8, 0, 0, 0x40, 0]; // PaintSolid palette 0 alpha 1.0
+    let o24 = |v: usize| -> [u8; 3] { [(v >> 16) as u8, (v >> 8) as u8, v as u8] };
+    let mut bgl: Vec<u8> = vec![]; // BaseGlyphList
+    let mut layer_list: Vec<u8> = vec![];
+    match format {
+        11 => {
+            // base glyph i paints PaintColrGlyph(i + 1); the last one paints a solid
+            let n = n.min(65000);
+            bgl.extend_from_slice(&((n + 1) as u32).to_be_bytes());
+            let recs_end = 4 + 6 * (n + 1);
+            for i in 0..=n {
+                bgl.extend_from_slice(&(i as u16).to_be_bytes());
+                bgl.extend_from_slice(&((recs_end + 3 * i) as u32).to_be_bytes());
+            }
+            for i in 0..n {
+                bgl.push(11);
+                bgl.extend_from_slice(&((i + 1) as u16).to_be_bytes());
+            }
+            bgl.extend_from_slice(&solid[..3]); // 3 byte slot; complete the solid below
+            bgl.extend_from_slice(&solid[3..]);
+        }
+        1 => {
+            // root PaintColrLayers(1, 0); layer i -> PaintColrLayers(1, i + 1); the last layer -> solid
+            bgl.extend_from_slice(&1u32.to_be_bytes());
+            bgl.extend_from_slice(&0u16.to_be_bytes());
+            bgl.extend_from_slice(&10u32.to_be_bytes());
+            bgl.extend_from_slice(&[1, 1, 0, 0, 0, 0]); // PaintColrLayers numLayers 1, first 0
+            layer_list.extend_from_slice(&(n as u32).to_be_bytes());
+            let paints_start = 4 + 4 * n;
+            for i in 0..n {
+                layer_list.extend_from_slice(&((paints_start + 6 * i) as u32).to_be_bytes());
+            }
+            for i in 0..n.saturating_sub(1) {
+                layer_list.push(1);
+                layer_list.push(1);
+                layer_list.extend_from_slice(&((i + 1) as u32).to_be_bytes());
+            }
+            layer_list.extend_from_slice(&solid);
+            layer_list.push(0);
+        }
+        _ => {
+            bgl.extend_from_slice(&1u32.to_be_bytes());
+            bgl.extend_from_slice(&0u16.to_be_bytes());
+            bgl.extend_from_slice(&10u32.to_be_bytes());
+            for _ in 0..n {
+                let is_var = format >= 13 && format % 2 == 1 && format != 32;
+                match format {
+                    10 => {
+                        bgl.push(10);
+                        bgl.extend_from_slice(&o24(6));
+                        bgl.extend_from_slice(&0u16.to_be_bytes());
+                    }
+                    12 | 13 => {
+                        // paint, then the transform record, then the child
+                        let tlen = if format == 13 { 28 } else { 24 };
+                        bgl.push(format);
+                        bgl.extend_from_slice(&o24(7 + tlen));
+                        bgl.extend_from_slice(&o24(7));
+                        let mut t = vec![0u8; tlen];
+                        t[0..4].copy_from_slice(&0x10000u32.to_be_bytes());
+                        t[12..16].copy_from_slice(&0x10000u32.to_be_bytes());
+                        bgl.extend_from_slice(&t);
+                    }
+                    32 => {
+                        // [composite 8][solid 5]: the chained slot goes to the next node, the other one to the own solid
+                        bgl.push(32);
+                        let (src, bck) = if slot == 0 { (13, 8) } else { (8, 13) };
+                        bgl.extend_from_slice(&o24(src));
+                        bgl.push(3); // SRC_OVER
+                        bgl.extend_from_slice(&o24(bck));
+                        bgl.extend_from_slice(&solid);
+                    }
+                    _ => {
+                        // translate / scale / rotate / skew families: format, Offset24, k F2Dot14 / FWORD fields [, varIndexBase]
+                        let nfields = match format {
+                            14 | 15 | 16 | 17 | 28 | 29 => 2,
+                            18 | 19 | 30 | 31 => 4,
+                            20 | 21 | 24 | 25 => 1,
+                            _ => 3, // 22 23 26 27
+                        };
+                        let size = 4 + 2 * nfields + if is_var { 4 } else { 0 };
+                        bgl.push(format);
+                        bgl.extend_from_slice(&o24(size));
+                        for _ in 0..nfields {
+                            bgl.extend_from_slice(&0x0100u16.to_be_bytes());
+                        }
+                        if is_var {
+                            bgl.extend_from_slice(&0xFFFF_FFFFu32.to_be_bytes()); // NO_VARIATION_INDEX
+                        }
+                    }
+                }
+            }
+            bgl.extend_from_slice(&solid);
+        }
+    }
+    let mut colr = vec![0u8; 34];
+    colr[1] = 1;
+    colr[14..18].copy_from_slice(&34u32.to_be_bytes());
+    if !layer_list.is_empty() {
+        colr[18..22].copy_from_slice(&((34 + bgl.len()) as u32).to_be_bytes());
+    }
+    colr.extend_from_slice(&bgl);
+    colr.extend_from_slice(&layer_list);
+    let g = simple_glyph(&[]);
+    let mut loca = vec![0u8, 0, 0, 0];
+    loca.extend_from_slice(&(g.len() as u32).to_be_bytes());
+    let mut hmtx = vec![];
+    hmtx.extend_from_slice(&be16(500));
+    hmtx.extend_from_slice(&be16(10));
+    build_sfnt(&[(b"head", head_table()), (b"hhea", hhea_table(1)), (b"maxp", maxp_table(1, 16, 0)), (b"hmtx", hmtx), (b"loca", loca), (b"glyf", g), (b"COLR", colr)])
+}
+struct ColrChain {
+    format: u8,
+    slot: u8,
+    n: usize,
+}
+fn colr_chain_cases(thorough: bool) -> Vec<ColrChain> {
+    let mut v = vec![];
+    for (format, slot) in COLR_CHAIN_SLOTS {
+        let mut ns = vec![1usize, 10, 20, 63, 64, 65, 70, 100, 1000, 100_000];
+        if thorough {
+            ns.extend([2, 24, 66, 300, 10_000]);
+        }
+        for n in ns {
+            v.push(ColrChain { format: *format, slot: *slot, n });
+        }
+    }
+    v
+}
+/// paint + bounding_box on a thread with a small explicit stack: unbounded recursion overflows it and kills the
+/// worker, which the parent reports as `abort:` for this case
+fn exercise_colr_chain(cx: &mut Ctx, c: &ColrChain) {
+    use skrifa::instance::LocationRef;
+    use skrifa::MetadataProvider;
+    let data = colr_chain_font(c.format, c.slot, c.n);
+    cx.group("color.paint(512KiB-stack)");
+    let res = cx.api("color.paint", || {
+        std::thread::Builder::new()
+            .stack_size(512 << 10)
+            .spawn(move || {
+                let font = skrifa::FontRef::new(&data).ok()?;
+                let glyph = font.color_glyphs().get(skrifa::GlyphId::new(0))?;
+                let r = glyph.paint(LocationRef::default(), &mut NullPainter).is_ok();
+                let _ = glyph.bounding_box(LocationRef::default(), skrifa::instance::Size::new(16.0));
+                Some(r)
+            })
+            .unwrap()
+            .join()
+            .ok()
+            .flatten()
+    });
+    match res {
+        Some(Some(true)) => {
+            cx.count("colr_chain.ok");
+            // depth is bounded: nothing nested deeper than the traversal limit may be painted
+            if c.n >= 70 {
+                cx.fail("color.paint", format!("limit:colr-depth-not-bounded:format{}:slot{}", c.format, c.slot), &format!("an acyclic chain of {} paints was traversed without DepthLimitExceeded", c.n));
+            }
+        }
+        Some(Some(false)) => {
+            cx.count("colr_chain.err");
+            if c.n <= 30 {
+                cx.fail("color.paint", format!("colr-chain:shallow-chain-rejected:format{}:slot{}", c.format, c.slot), &format!("a well formed chain of {} paints was rejected", c.n));
+            }
+        }
+        _ => cx.count("colr_chain.no_glyph"),
     }
 }
 
@@ -3369,6 +3616,7 @@ enum Task {
     Gk(usize),
     Big(usize),
     Name(usize),
+    ColrChain(usize),
 }
 
 struct World {
@@ -3385,6 +3633,7 @@ struct World {
     gks: Vec<GkCase>,
     bigs: Vec<(String, Vec<u8>)>,
     names: Vec<(String, Vec<u8>, bool)>,
+    chains: Vec<ColrChain>,
     tasks: Vec<Task>,
 }
 
@@ -3451,7 +3700,8 @@ fn build_world(seed: u64, thorough: bool) -> World {
     for i in 0..gks.len() {
         tasks.push(Task::Gk(i));
     }
-    let bigs = big_outline_fonts();
+    let mut bigs = big_outline_fonts();
+    bigs.extend(instructed_composite_fonts());
     for i in 0..bigs.len() {
         tasks.push(Task::Big(i));
     }
@@ -3459,13 +3709,17 @@ fn build_world(seed: u64, thorough: bool) -> World {
     for i in 0..names.len() {
         tasks.push(Task::Name(i));
     }
+    let chains = colr_chain_cases(thorough);
+    for i in 0..chains.len() {
+        tasks.push(Task::ColrChain(i));
+    }
     let nim = if thorough { 60000 } else { 8000 };
     for m in 0..nim {
         for fix in 0..ift.len() {
             tasks.push(Task::Ift { fix, m });
         }
     }
-    World { seed, thorough, runs, comps, fonts, ift, f1, f2, cffs, brs, gks, bigs, names, tasks }
+    World { seed, thorough, runs, comps, fonts, ift, f1, f2, cffs, brs, gks, bigs, names, chains, tasks }
 }
 
 fn run_task(w: &World, idx: usize, totals: &mut std::collections::BTreeMap<String, u64>, evals: &mut u64) {
@@ -3591,6 +3845,17 @@ fn run_task(w: &World, idx: usize, totals: &mut std::collections::BTreeMap<Strin
             wline(&format!("B {} {}", idx, key));
             let mut cx = Ctx { task: idx, key, counters: Default::default(), evals: 0, failures: 0, sites: vec![] };
             exercise_all_configs(&mut cx, bytes);
+            *evals += cx.evals;
+            for (k, v) in cx.counters {
+                *totals.entry(k).or_insert(0) += v;
+            }
+        }
+        Task::ColrChain(i) => {
+            let c = &w.chains[*i];
+            let key = format!("synthetic-colr-chain-format{}-slot{}-n{}:id", c.format, c.slot, c.n);
+            wline(&format!("B {} {}", idx, key));
+            let mut cx = Ctx { task: idx, key, counters: Default::default(), evals: 0, failures: 0, sites: vec![] };
+            exercise_colr_chain(&mut cx, c);
             *evals += cx.evals;
             for (k, v) in cx.counters {
                 *totals.entry(k).or_insert(0) += v;
